@@ -106,6 +106,10 @@ class History:
         v = self.v
         big = self.size == 'big'
         self.users = list(range(2, 2 + (r.randint(3, 9) if big else r.randint(1, 6))))
+        # guarantee stress: few base winners among many tickets, so that guarantees decide who wins
+        self.stress = (v in V1 or v == 'gt2') and r.random() < 0.3
+        if self.stress:
+            self.users = list(range(2, 2 + r.randint(3, 6)))
         self.snap_addrs = [OWNER] + self.users + [SUPPORT, STRANGERS[0], SC_CALLERS[0]]
         self.raw('H %s %s %s' % (self.hid, v, self.profile))
         self.raw('U %d %s' % (len(self.snap_addrs), ' '.join(map(str, self.snap_addrs))))
@@ -113,6 +117,8 @@ class History:
         self.price = self.amount()
         self.tptv = self.amount()
         self.K = r.randint(8, 30) if big else r.randint(1, 8)
+        if self.stress:
+            self.K = 2 * len(self.users) + r.choice([0, 1, 2])
         self.round = r.randint(0, 40)
         self.epoch = r.randint(0, 5)
         self.conf, self.ws = 100, 200
@@ -186,16 +192,24 @@ class History:
         v = self.v
         big = self.size == 'big'
         if v in V1:
-            if r.random() < 0.2:
+            if r.random() < (0.5 if self.stress else 0.2):
                 # holder of both guarantees whose energy allowance exceeds the staking minimum
                 mc = self.minconf
                 self.dual = getattr(self, 'dual', set()) | {u}
                 return [u, mc + r.choice([0, 0, 1, 2]), mc + r.choice([1, 1, 2, 3]), 1]
             st = r.choice([0, 0, 1, 1, 2, 3, 4]) * (3 if big and r.random() < 0.3 else 1)
             en = r.choice([0, 0, 1, 2, 3])
+            if self.stress:
+                st, en = r.randint(0, self.minconf + 2), r.randint(1, 4)
             return [u, st, en, int(r.random() < 0.35)]
         if v == 'gt2':
             cnt = r.choice([0, 1, 2, 3, 4, 5, 6, 6, 12 if big else 3])
+            if self.stress:
+                cnt = r.randint(3, 6)
+                infos = []
+                for _ in range(r.randint(1, 2)):
+                    infos += [r.choice([1, 1, 2]), r.randint(1, cnt)]
+                return [u, cnt, len(infos) // 2] + infos
             x = r.random()
             if x < 0.03:
                 cnt = r.choice([255, 256])
@@ -373,6 +387,19 @@ class History:
                 self.setter_noise()
         if pend and r.random() < 0.9:
             self.add_tickets(pend)
+        if r.random() < 0.3:
+            # allocate -> blacklist -> allocate again (must be rejected as a duplicate) -> maybe restore
+            done = [u for u in self.users if self.alloc(u) > 0]
+            if done:
+                a = r.choice(done)
+                ep = 'refund' if (v == 'gt2' and r.random() < 0.4) else 'blacklist'
+                rec = self.call(r.choice([OWNER, OWNER, SUPPORT]), [ep, 1, a])
+                self.last_blacklisted = [a]
+                self.add_tickets([a] if r.random() < 0.7 else [a, STRANGERS[1]])
+                if v in HAS_UNBL and r.random() < 0.6:
+                    self.call(OWNER, ['unblacklist', 1, a])
+                    if r.random() < 0.3:
+                        self.add_tickets([a])
         if not deposited and r.random() < 0.93:
             if r.random() < 0.3:
                 self.do_deposit(exact=False)
